@@ -5,12 +5,16 @@
 // contract.go (Execute, checkExecution, checkRedeploy, CreateContractID) and
 // errors.go are kept. A contract call executes a *script* carried in the payload:
 //
-//	{"fee":"<dec>","err":"" | "vm" | "system" | "negfee",
+//	{"fee":"<dec>","err":"" | "vm" | "system" | "timeout" | "negfee" | "nofd",
 //	 "xfers":[{"to":"<hex account id>","amt":"<dec>"}],
 //	 "sets":[{"k":"<str>","v":"<str>"}], "dels":["<str>"], "ret":"<str>", "events":<n>}
 //
 // Transfers go from the called contract's account to the target through the real
 // state.SendBalance, which is what luaSendAmount does after its guards.
+// "vm" fails before anything is written (a Lua error: the VM restores its recovery point);
+// "system" and "timeout" fail AFTER the transfers and storage writes of the script have been made (a
+// system error / the block deadline in the middle of a call: nothing inside the VM undoes them, the
+// transaction executor's rollback has to).
 package contract
 
 import (
@@ -125,8 +129,6 @@ func runScript(contractState *statedb.ContractState, payload, contractAddress []
 	switch sc.Err {
 	case "negfee":
 		return "", nil, "", big.NewInt(-1), nil
-	case "system":
-		return "", nil, "", fee, newVmSystemError(errors.New("scripted system error"))
 	case "vm":
 		return "", nil, "", fee, &stubVmErr{"scripted vm error"}
 	}
@@ -168,6 +170,12 @@ func runScript(contractState *statedb.ContractState, payload, contractAddress []
 		if err := contractState.DeleteData([]byte(k)); err != nil {
 			return "", nil, "", fee, newDbSystemError(err)
 		}
+	}
+	switch sc.Err {
+	case "system":
+		return "", nil, "", fee, newVmSystemError(errors.New("scripted system error"))
+	case "timeout":
+		return "", nil, "", fee, &VmTimeoutError{}
 	}
 	var evs []*types.Event
 	for i := 0; i < sc.Events; i++ {
